@@ -185,6 +185,17 @@ def check_dcm(case, ctx):
                 ctx.le("constructed DCM is a proper rotation", rq.so3_defect(M), 1e-12, {"M": M}, route=r)
                 ctx.ok("object is a DCM", isinstance(out.value, DCM), route=r)
     ctx.le("reference: DCM(q=) equals R(q)", 0.0, 1.0, route="DCM(q=)")
+    # ---- a non-finite angle on the angle routes is not a rotation either: rejected, not wrapped
+    bad = [float("nan"), float("inf"), -float("inf")][int(abs(xyz[2]) * 1e6) % 3]
+    kb = int(abs(xyz[1]) * 1e6) % 3
+    xyz_b = list(xyz)
+    xyz_b[kb] = bad
+    angs_b = [float(a) for a in p["angles"]]
+    angs_b[kb % len(angs_b)] = bad
+    for r, fn in (("reject/DCM(x,y,z)", lambda: DCM(**{"xyz"[kb]: bad})), ("reject/DCM(x,y,z)", lambda: DCM(x=xyz_b[0], y=xyz_b[1], z=xyz_b[2])),
+                  ("reject/DCM(rpy=)", lambda: DCM(rpy=list(xyz_b))), ("reject/DCM(euler=)", lambda: DCM(euler=(str(p["seq"]), list(angs_b)))),
+                  ("reject/DCM(axang=)", lambda: DCM(axang=(p["axis"].copy(), bad)))):
+        must_reject(ctx, r, fn, {"kind": "non-finite angle", "angle": str(bad)})
     # ---- the free constructions, also with a null angle somewhere (exact 0 or whole turns), and the result buffer handed back to the caller:
     # a caller that goes on computing in place with a matrix it received must not change what the next construction returns
     from ahrs.common.dcm import rotation, rot_seq
